@@ -18,8 +18,13 @@ void harness(void)
 	MPT_STRUCT(buffer) *buf = _mpt_buffer_alloc(CAP, 0);
 	MPT_STRUCT(path) p = MPT_PATH_INIT;
 	uint8_t *d;
+	#ifdef USED
+	size_t used = USED, post = POST, i, len;      /* driver-side case split */
+	int addchar = ADDCHAR, r;
+#else
 	size_t used = V_IN_RANGE("used", CAP - 2, CAP), post = V_IN_RANGE("post", 0, 2), i, len;
 	int addchar = V_IN_BOOL("addchar"), r;
+#endif
 	V_ASSUME(buf != 0 && buf->_size == CAP);
 	V_ASSUME(post <= used - 4);
 	d = (uint8_t *) (buf + 1);
